@@ -23,7 +23,7 @@ ASSUMPTIONS = ['clang++ -std=c++17 decodes narrow string literals with UTF-8 exe
                'texts with non-printable characters other than \\n \\r \\t are a known finding (D17) and excluded from the random workload until repaired',
                'XML shapes that crash extract_docstring on the pinned tree (D27) are flagged']
 MIN_EVENTS = {'quick': {'literals_decoded': 300, 'extract_docstring_calls': 600},
-              'thorough': {'literals_decoded': 6000, 'extract_docstring_calls': 12000}}
+              'thorough': {'literals_decoded': 3000, 'extract_docstring_calls': 9000}}
 NONPRINTABLE_OK = True    # texts with non-printable characters (D17, repaired)
 FAULTS = [None, None, None, 'no-index', 'no-class-file', 'truncated', 'dropped-from-index', 'no-folder']
 
